@@ -1,4 +1,5 @@
 import Pxv.Lemmas.Order
+import Pxv.Lemmas.Borrow
 /-!
 C01 — accepted blueprints yield an SDK that compiles: the ownership part.
 
@@ -208,6 +209,36 @@ theorem C01_partial {g : Graph} {σ A : List Nat}
     (hrun : isRun g σ = true) (hA : predClosed g A = true) (hone : oneMover g A = true)
     (hwf : g.wellFormed = true) (hcf : captureFree g = true) : OwnSafe g σ A :=
   safe_of_run_holdersFirst hrun hA hone hwf (holdersFirst_of_captureFree σ A hcf)
+
+/-- **multiple_consumers, cloning loop**: after the loop has handled a contended cloneable value `n`,
+    every competing set (the consumers of `n` that reach one sink, i.e. lie on one control-flow path)
+    contains at most one node that still takes `n` by value — the others now consume their own clone —
+    and nothing but those consumers lost its edge. This is the `oneMover` hypothesis of
+    `C01_order_safe`, established per competing set by the pass that the model mirrors
+    (`Pxv/Model/Borrow.lean`, compared with the real pass on every call graph of every run). -/
+theorem mc_one_mover_per_set (g : Graph) (n : Nat) (hn : n < g.size) (sets : List (List Nat)) :
+    let g' := (mcCloneSets g n sets).1
+    (∀ set ∈ sets, ∀ c1 ∈ set, ∀ c2 ∈ set, c1 ∈ g'.consumers n → c2 ∈ g'.consumers n → c1 = c2) ∧
+    (∀ c ∈ g'.consumers n, c ∈ g.consumers n) := by
+  intro g'
+  have inv := mcCloneSets_inv g n hn sets
+  have hcons : g'.consumers n = (g.consumers n).filter (fun c => !(mcCloneSets g n sets).2.contains c) :=
+    inv.consumers
+  refine ⟨?_, ?_⟩
+  · intro set hs c1 hc1 c2 hc2 m1 m2
+    rw [hcons, List.mem_filter] at m1 m2
+    exact inv.single set hs c1 hc1 c2 hc2 (by simpa using m1.2) (by simpa using m2.2)
+  · intro c hc
+    rw [hcons, List.mem_filter] at hc
+    exact hc.1
+
+-- non-vacuity: the diamond `a -> c (move)`, `a -> d (move)`, both feeding the handler: one clone.
+def mcDiamond : Graph :=
+  { nodes := [{ cloneable := true }, {}, {}, {}],
+    edges := [⟨0, 1, .move⟩, ⟨0, 2, .move⟩, ⟨1, 3, .move⟩, ⟨2, 3, .move⟩] }
+example : (mcCloneSets mcDiamond 0 [[1, 2]]).1.consumers 0 = [2] ∧
+    (multipleConsumers mcDiamond).2 = [] ∧ ((multipleConsumers mcDiamond).1.consumers 0) = [2] := by
+  decide
 
 /-- The full-strength statement: *whatever* the components capture and borrow. -/
 def C01_statement : Prop :=
